@@ -956,10 +956,17 @@ type FileCase struct {
 	Seed uint32
 	Mode int // 2 per-corner vertices, 3 welded grid, 4 welded grid with normals (as LargeCase)
 	Name string
+	// Existing > 0: the path already holds a file of that many bytes when Save is called (an earlier
+	// export of another model): Save replaces it
+	Existing int `json:",omitempty"`
 }
 
 func genFile(t *rapid.T) FileCase {
-	return FileCase{Tris: rapid.SampledFrom([]int{1, 2, 5, 80, 81, 82, 163, 164, 1000, 5000}).Draw(t, "tris"), Seed: rapid.Uint32().Draw(t, "seed"),
+	ex := 0
+	if rapid.Bool().Draw(t, "overExisting") {
+		ex = rapid.SampledFrom([]int{1, 84, 134, 4096, 5000, 70000, 400000}).Draw(t, "existing")
+	}
+	return FileCase{Existing: ex, Tris: rapid.SampledFrom([]int{1, 2, 5, 80, 81, 82, 163, 164, 1000, 5000}).Draw(t, "tris"), Seed: rapid.Uint32().Draw(t, "seed"),
 		Mode: rapid.IntRange(2, 4).Draw(t, "mode"), Name: rapid.SampledFrom([]string{"a.stl", "B.STL", "noext", "dots.in.name.stl"}).Draw(t, "name")}
 }
 
@@ -984,6 +991,16 @@ func runFile(c FileCase, o *vh.Obs) *vh.Failure {
 	}
 	defer cleanup()
 	path := filepath.Join(dir, c.Name)
+	if c.Existing > 0 && c.Existing <= 1<<20 {
+		if err := os.WriteFile(path, bytes.Repeat([]byte{0xA5}, c.Existing), 0o644); err != nil {
+			return vh.Failf("harness/existing-file", "%v", err)
+		}
+		if c.Existing > want.Len() {
+			o.Class("files/over-a-longer-existing-file")
+		} else {
+			o.Class("files/over-a-shorter-existing-file")
+		}
+	}
 	if err := stl.Save(path, m); err != nil {
 		return vh.Failf("files/save-error", "Save(%q) of %d triangles: %v", c.Name, c.Tris, err)
 	}
